@@ -318,8 +318,8 @@ def check_dispatch(case):
 
 
 SUBCHECKS = [
-    SubCheck("legacy", check_legacy, "non-trivial: >=2 inputs, or non-ALL/ANYONECANPAY hash type, or a code separator in the script code", legacy_case, quick=6000, thorough=80000),
-    SubCheck("segwit_v0", check_segwit, "non-trivial: >=2 inputs or non-ALL hash type", segwit_case, quick=5000, thorough=60000),
-    SubCheck("taproot", check_taproot, "non-trivial: digest produced (hash type defined, SINGLE in range) for >=2 inputs or a non-default type", taproot_case, quick=5000, thorough=60000),
-    SubCheck("dispatch", check_dispatch, "non-trivial: from_tx produced a digest for the generated prevout kind", dispatch_case, quick=5000, thorough=60000),
+    SubCheck("legacy", check_legacy, "non-trivial: >=2 inputs, or non-ALL/ANYONECANPAY hash type, or a code separator in the script code", legacy_case, quick=10000, thorough=120000),
+    SubCheck("segwit_v0", check_segwit, "non-trivial: >=2 inputs or non-ALL hash type", segwit_case, quick=9000, thorough=100000),
+    SubCheck("taproot", check_taproot, "non-trivial: digest produced (hash type defined, SINGLE in range) for >=2 inputs or a non-default type", taproot_case, quick=9000, thorough=100000),
+    SubCheck("dispatch", check_dispatch, "non-trivial: from_tx produced a digest for the generated prevout kind", dispatch_case, quick=9000, thorough=100000),
 ]
